@@ -213,3 +213,56 @@ theorem bridge_aggIntervalNP (cls : Bool) (rep nonrep unexp : List U) :
 theorem bridge_np_columns : Gen.C02.np_unit_columns = ["lower_{alpha}_{estimand}", "upper_{alpha}_{estimand}"] := rfl
 
 end ElexModel.Agg
+
+/-! ### the properties stated directly about the regenerated source terms
+
+The theorems above are about the hand model and the bridge lemmas identify it with the source; the statements below compose the
+two, so that what is proved reads: *the chains as they are written in `/repo/src` today* sum the right units. `AV` is any table whose
+values are those of the translated `_get_reporting_aggregate_votes` (the frame `get_aggregate_predictions` receives from it). -/
+
+namespace ElexModel.Agg
+open ElexModel ElexModel.Table
+
+/-- counted votes of the source's `_get_reporting_aggregate_votes` at a key = counts of the reporting (and, without a county
+    classification in the level, unexpected) units carrying that key -/
+theorem source_votes_is_sum (cls : Bool) (f : U → ℚ) (rep unexp : List U) (k : ℕ) :
+    Gen.C02.votes_results_E (groupSum (col f rep)) (groupSum (col f unexp)) cls k = sumAt k (col f (counted cls rep unexp)) := by
+  rw [← (bridge_votes cls f rep unexp).2.1 k, val_votes]
+
+/-- **C01 on the source**: the counted column of `get_aggregate_predictions` is the sum of the counts of every attributable unit -/
+theorem source_counted_is_sum (cls : Bool) (rep nonrep unexp : List U) (AV : Table)
+    (hAV : ∀ k, val k AV =
+      Gen.C02.votes_results_E (groupSum (col (·.results) rep)) (groupSum (col (·.results) unexp)) cls k) (k : ℕ) :
+    Gen.C02.agg_results_E AV (groupSum (col (·.results) nonrep)) k =
+      sumAt k (col (·.results) (attributable cls rep nonrep unexp)) := by
+  unfold Gen.C02.agg_results_E
+  rw [hAV, source_votes_is_sum, val_groupSum, attributable_eq]
+
+/-- **C02 on the source**: the prediction column is the counted votes of the reporting / unexpected units plus the unit
+    predictions of the nonreporting units -/
+theorem source_pred_is_sum (cls : Bool) (rep nonrep unexp : List U) (AV : Table)
+    (hAV : ∀ k, val k AV =
+      Gen.C02.votes_results_E (groupSum (col (·.results) rep)) (groupSum (col (·.results) unexp)) cls k) (k : ℕ) :
+    Gen.C02.agg_pred_E AV (groupSum (col (·.pred) nonrep)) k =
+      sumAt k (col (·.results) (counted cls rep unexp)) + sumAt k (col (·.pred) nonrep) := by
+  unfold Gen.C02.agg_pred_E
+  rw [hAV, source_votes_is_sum, val_groupSum]
+
+/-- **C02 / C03 on the source**: the nonparametric aggregate bounds are the rounded sums of the unit bounds plus the counted votes -/
+theorem source_np_bounds_are_sums (cls : Bool) (rep nonrep unexp : List U) (AV : Table)
+    (hAV : ∀ k, val k AV =
+      Gen.C02.votes_results_E (groupSum (col (·.results) rep)) (groupSum (col (·.results) unexp)) cls k) (k : ℕ) :
+    Gen.C02.np_lower AV (groupSum (col (·.lower) nonrep)) k =
+      rhe (sumAt k (col (·.lower) nonrep) + sumAt k (col (·.results) (counted cls rep unexp))) ∧
+    Gen.C02.np_upper AV (groupSum (col (·.upper) nonrep)) k =
+      rhe (sumAt k (col (·.upper) nonrep) + sumAt k (col (·.results) (counted cls rep unexp))) := by
+  unfold Gen.C02.np_lower Gen.C02.np_upper
+  rw [hAV, source_votes_is_sum, val_groupSum, val_groupSum]
+  exact ⟨rfl, rfl⟩
+
+/-- the hypothesis on `AV` is satisfiable: the model's `votes` table is such a table -/
+example (cls : Bool) (rep unexp : List U) : ∀ k, val k (votes cls (·.results) rep unexp) =
+    Gen.C02.votes_results_E (groupSum (col (·.results) rep)) (groupSum (col (·.results) unexp)) cls k :=
+  (bridge_votes cls (·.results) rep unexp).2.1
+
+end ElexModel.Agg
